@@ -585,14 +585,12 @@ def dag_rules(repo, chk):
             chk.expect(guarded, "R-C15-8", "%s merges the operators of %s without duplicates" % (fn.name, recv), loc(fn, loop),
                        "operators of another expression are appended unconditionally: a sub-expression shared by both sides is listed twice and its derivative "
                        "is propagated twice (e = x + 1; e*(e + y) has d/dx doubled)", expected="if oper not in <operators already present>", found=norm(loop))
-    merges = [c for c in ast.walk(t) if isinstance(c, ast.Call) and last_attr(c) == "_append_operators_of"]
-    chk.expect(n_a >= 1 and len(merges) >= 3, "R-C15-8", "binary operators and if_else merge operand expressions through the duplicate-free helper", loc(EXPR),
-               found="%d merge loops, %d helper calls" % (n_a, len(merges)))
-    for fn in [n for n in ast.walk(t) if isinstance(n, ast.FunctionDef) and n.name in ("_binary_operation_helper", "_unary_operation_helper", "if_else", "inequality")]:
-        for loop in [x for x in walk(fn) if isinstance(x, ast.For)]:
-            pass
+    if n_a < 1:
+        chk.error("R-C15-8: no loop merging the operators of another expression found in expr.py (anchors moved?)")
     n_b = 0
     for fn in [n for n in ast.walk(t) if isinstance(n, ast.FunctionDef) and n.name == "get_rpn"]:
+        owner = getattr(getattr(fn, "_parent", None), "name", "?")
+        k = 0
         for a in [x for x in walk(fn) if isinstance(x, ast.Assign)]:
             tg = [unparse(x) for x in a.targets]
             if "rpn_map[self]" not in tg:
@@ -601,13 +599,15 @@ def dag_rules(repo, chk):
             if isinstance(v, ast.Subscript) and unparse(v.value) == "rpn_map":
                 n_b += 1
                 fn._rel = EXPR
-                chk.bad("R-C15-8", "get_rpn (line %d) builds the program of an operator in a new list" % a.lineno, loc(fn, a),
+                k += 1
+                chk.bad("R-C15-8", "%s.get_rpn (branch %d) builds the program of an operator in a new list" % (owner, k), loc(fn, a),
                         "rpn_map[self] aliases the operand's list and the following append/extend/insert mutates it: a second use of that operand "
                         "(shared sub-expression, or the exponent in the power rule's derivative) reads a corrupted program", expected="list(rpn_map[operand])", found=norm(a))
             elif any(isinstance(x, ast.Subscript) and unparse(x.value) == "rpn_map" for x in ast.walk(v)):
                 n_b += 1
-                chk.ok("R-C15-8", "get_rpn (line %d) builds the program of an operator in a new list" % a.lineno, loc(EXPR, a))
-    chk.floor("R-C15-8", 2 + 6)
+                k += 1
+                chk.ok("R-C15-8", "%s.get_rpn (branch %d) builds the program of an operator in a new list" % (owner, k), loc(EXPR, a))
+    chk.floor("R-C15-8", 1 + 6)
 
 WITNESSES = [
     dict(name="rpn-aliases-operand-program", file=EXPR, old="            rpn_map[self] = _rpn = list(rpn_map[self._operand])\n", new="            rpn_map[self] = _rpn = rpn_map[self._operand]\n", rule="R-C15-8"),
